@@ -235,6 +235,15 @@ def compare(program, live_fi, ref_fi, effects=default_effects, **kw):
     rk = dict(kw.get("ref_kw") or {})
     deep = os.environ.get("ZC_DEEP") == "1" and "loop_policy" not in lk \
         and "loop_policy" not in rk
+    rc = getattr(ref_fi, "cls", None)
+    lc = getattr(live_fi, "cls", None)
+    if rc is not None and lc is not None and not isinstance(rc, _FakeClass) \
+            and rc is not lc and lc.qualname in program.model.mro(
+                rc.qualname):
+        # the live method is inherited by the class the reference is written
+        # for (moved to a base class or mixin): it is analysed as that class
+        # has it (super() along that class's MRO, its constants)
+        lk.setdefault("self_class", rc.qualname)
     lk.setdefault("loop_policy", A.carried_state_policy(live_fi.node))
     rk.setdefault("loop_policy", A.carried_state_policy(ref_fi.node))
     kw = dict(kw, live_kw=lk, ref_kw=rk)
@@ -285,7 +294,9 @@ def compare(program, live_fi, ref_fi, effects=default_effects, **kw):
 
         def inl(f):
             nm = getattr(f, "name", "")
+            from .absint import has_semantic_decorator
             return nm not in idents and not nm.startswith("__") \
+                and not has_semantic_decorator(f) \
                 and sum(1 for _ in ast.walk(f.node)) < 400
         kw2 = dict(kw, live_kw=dict(kw["live_kw"], inline=inl))
         try:
